@@ -403,7 +403,7 @@ def fixed_cases():
 
 def gen(rng, tier):
     cases = fixed_cases()
-    nprog = 45 if tier == 'quick' else 250
+    nprog = 40 if tier == 'quick' else 250
     for _ in range(nprog):
         cases += cases_for_program(rng, gen_prog(rng), tier)
     if tier == 'thorough':
